@@ -529,3 +529,91 @@ Proof.
   unfold mcf1_textbook, prf_spec_of, binf1_textbook, micro_spec, f1_c. cbn [fst]. rewrite Ht, Hp, Hf. f_equal.
   rewrite <- (ratio0_double (n_correct (pairs_spec b)) (lenZ (pairs_spec b))). f_equal. lia.
 Qed.
+
+(* ------------------------------------------------------------------------------------------ *)
+(* score inputs: permuting the score columns and relabelling the targets                       *)
+(* ------------------------------------------------------------------------------------------ *)
+(* column pi j of the new row is column j of the old one; sg is the inverse of pi on the range *)
+Definition permute_cols (sg : Z -> Z) (r : list Z) : list Z := map (fun j => gather r (sg j)) (classes (List.length r)).
+Definition inverse_on (n : nat) (pi sg : Z -> Z) : Prop :=
+  forall c, inrange n c = true -> sg (pi c) = c /\ pi (sg c) = c.
+Lemma permute_length sg r : List.length (permute_cols sg r) = List.length r.
+Proof. unfold permute_cols, classes. rewrite !map_length, seq_length. reflexivity. Qed.
+Lemma gather_permute_raw sg r j : inrange (List.length r) j = true -> gather (permute_cols sg r) j = gather r (sg j).
+Proof. intros H. destruct (idx_in _ j H) as [L E]. unfold gather at 1, permute_cols. rewrite nth_classes by exact L. rewrite E. reflexivity. Qed.
+Lemma gather_permute n pi sg r y : perm_on n pi -> inverse_on n pi sg -> List.length r = n -> inrange n y = true ->
+  gather (permute_cols sg r) (pi y) = gather r y.
+Proof. intros Hpi Hinv Hl Hy. rewrite gather_permute_raw by (rewrite Hl; apply Hpi, Hy). rewrite (proj1 (Hinv y Hy)). reflexivity. Qed.
+Lemma list_tab (r : list Z) : r = map (gather r) (classes (List.length r)).
+Proof.
+  unfold classes, gather. rewrite map_map. rewrite (map_ext _ (fun k => nth k r 0)) by (intros k; rewrite Nat2Z.id; reflexivity).
+  induction r as [|x r IH]; [reflexivity|]. cbn [List.length seq map nth]. f_equal. rewrite <- seq_shift, map_map. exact IH.
+Qed.
+Lemma permute_perm n sg r : perm_on n sg -> List.length r = n -> Permutation (permute_cols sg r) r.
+Proof.
+  intros Hsg Hl. rewrite (list_tab r) at 2. unfold permute_cols. rewrite Hl, <- (map_map sg (gather r)).
+  apply Permutation_map, (classes_perm n sg Hsg).
+Qed.
+Lemma cnt_perm {X} (P : X -> bool) l l' : Permutation l l' -> cnt P l = cnt P l'.
+Proof. intros H. unfold cnt. rewrite (Permutation_length (perm_filter P l l' H)). reflexivity. Qed.
+
+(* top-k: the rank rule is symmetric -- no proviso *)
+Theorem topk_symmetric n pi sg k r y : perm_on n pi -> perm_on n sg -> inverse_on n pi sg -> List.length r = n -> inrange n y = true ->
+  correct_topk k (permute_cols sg r) (pi y) = correct_topk k r y.
+Proof.
+  intros Hpi Hsg Hinv Hl Hy. unfold correct_topk. rewrite (gather_permute n pi sg r y Hpi Hinv Hl Hy).
+  rewrite (cnt_perm _ _ _ (permute_perm n sg r Hsg Hl)). reflexivity.
+Qed.
+
+(* argmax: PROVISO -- the row has a strict maximum (no tie at the maximal score); with a tie the
+   first-index rule picks the lowest index, which a permutation of the columns does not preserve *)
+Definition strict_max (r : list Z) (i : Z) : Prop :=
+  inrange (List.length r) i = true /\ forall j, inrange (List.length r) j = true -> j <> i -> gather r j < gather r i.
+Lemma strict_max_first r i : strict_max r i -> first_max r = i.
+Proof.
+  intros [Hi Hlt]. destruct (idx_in _ i Hi) as [L E]. rewrite <- E. apply first_max_is_first_max.
+  assert (Hnth : forall k, (k < List.length r)%nat -> k <> Z.to_nat i -> nth k r 0 < nth (Z.to_nat i) r 0).
+  { intros k Hk Hne. specialize (Hlt (Z.of_nat k)). unfold gather in Hlt. rewrite Nat2Z.id in Hlt. apply Hlt; [|lia].
+    unfold inrange. apply andb_true_intro. split; [apply Z.leb_le|apply Z.ltb_lt]; lia. }
+  split; [exact L|]. split.
+  - intros x Hx. apply (In_nth _ _ 0) in Hx as [k [Hk <-]]. destruct (Nat.eq_dec k (Z.to_nat i)) as [->|Hne]; [lia|].
+    specialize (Hnth k Hk Hne). lia.
+  - intros j Hj. apply Hnth; lia.
+Qed.
+Lemma strict_max_permute n pi sg r i : perm_on n pi -> perm_on n sg -> inverse_on n pi sg -> List.length r = n ->
+  strict_max r i -> strict_max (permute_cols sg r) (pi i).
+Proof.
+  intros Hpi Hsg Hinv Hl [Hi Hlt]. unfold strict_max. rewrite permute_length, Hl in *. split; [apply Hpi, Hi|].
+  intros j Hj Hne. rewrite !gather_permute_raw by (rewrite Hl; try exact Hj; apply Hpi, Hi).
+  rewrite (proj1 (Hinv i Hi)). apply Hlt; [apply Hsg, Hj|]. intros E. apply Hne. rewrite <- E. symmetry. apply (proj2 (Hinv j Hj)).
+Qed.
+Theorem argmax_relabel n pi sg r i : perm_on n pi -> perm_on n sg -> inverse_on n pi sg -> List.length r = n ->
+  strict_max r i -> argmax (permute_cols sg r) = pi (argmax r).
+Proof.
+  intros Hpi Hsg Hinv Hl Hs. rewrite !argmax_eq_first_max, (strict_max_first r i Hs).
+  apply strict_max_first, (strict_max_permute n pi sg r i); assumption.
+Qed.
+
+(* score batches: columns permuted, targets relabelled *)
+Definition logits_relabel (pi sg : Z -> Z) (rows : list (list Z)) (t : list Z) : mcbatch :=
+  (Logits (map (permute_cols sg) rows), map pi t).
+Theorem relabelled_logits n pi sg rows t : perm_on n pi -> perm_on n sg -> inverse_on n pi sg ->
+  Forall (fun r => List.length r = n /\ exists i, strict_max r i) rows ->
+  relabelled pi (Logits rows, t) (logits_relabel pi sg rows t).
+Proof.
+  intros Hpi Hsg Hinv HF. unfold relabelled, logits_relabel, pairs_spec, relabel. cbn [fst snd preds_spec].
+  rewrite map_map, <- combine_map2. f_equal. rewrite map_map. 
+  induction HF as [|r rows [Hl [i Hs]] _ IH]; [reflexivity|]. cbn [map]. rewrite IH. f_equal.
+  rewrite <- !argmax_eq_first_max. apply (argmax_relabel n pi sg r i); assumption.
+Qed.
+(* top-k accuracy on score batches: no proviso *)
+Theorem acc_relabelled_logits_topk n pi sg a k rows t : perm_on n pi -> perm_on n sg -> inverse_on n pi sg ->
+  Nat.eqb k 1 = false -> Forall (fun r => List.length r = n) rows -> forallb (inrange n) t = true ->
+  acc_relabelled pi (a, Some n, k) (Logits rows, t) (logits_relabel pi sg rows t).
+Proof.
+  intros Hpi Hsg Hinv Hk HF Ht. unfold acc_relabelled, acc_samples, acc_k, logits_relabel. cbn [fst snd]. rewrite Hk.
+  rewrite combine_map2, !map_map. apply map_ext_in. intros [r y] Hin. cbn [fst snd].
+  pose proof (in_combine_l _ _ _ _ Hin) as Hr. pose proof (in_combine_r _ _ _ _ Hin) as Hy.
+  rewrite Forall_forall in HF. rewrite forallb_forall in Ht.
+  rewrite (topk_symmetric n pi sg k r y Hpi Hsg Hinv (HF r Hr) (Ht y Hy)). reflexivity.
+Qed.
